@@ -194,9 +194,53 @@ def trailing(ctx, rep, rule):
         gs = flow.guards(body, prov)
         oks = flow.blocks_assigning_return(body, lambda rv: rv["k"] == "agg" and rv.get("vname") == "Ok")
 
+        seen_loops = set()
+
+        def pure_remainder(t, depth=0):
+            """t is the input, or what a chain of from_ber calls left over of it: only remainder components (`.0`) are taken
+            on the way down - never the decoded value (`.1`), whose contents are *inside* an element, not after it."""
+            if depth > 60:
+                return False
+            if t[0] == "arg":
+                return True
+            if t[0] == "loop":
+                # either a real cycle (a helper parsed twice, a loop over fields: its alternatives are checked where it is
+                # defined) or the trace was cut for depth: resume it at that local
+                if t[1] in seen_loops:
+                    return True
+                seen_loops.add(t[1])
+                return pure_remainder(prov.local(t[1]), depth + 1)
+            if t[0] == "phi":
+                # the failure alternatives of a Result / Option (an Err(..) built in place, a residual passed on) carry no remainder
+                alts = [x for x in t[1] if not (x[0] == "call" and (x[1] or "").endswith("from_residual")) and
+                        not (x[0] == "agg" and len(x) > 2 and x[2] in ("Err", "None"))]
+                return bool(alts) and all(pure_remainder(x, depth + 1) for x in alts)
+            if t[0] == "agg" and len(t) > 3 and t[2] in ("Ok", "Some"):
+                return any(pure_remainder(ft, depth + 1) for f, ft in t[3])
+            if t[0] == "cast":
+                return pure_remainder(t[1], depth + 1)
+            if t[0] == "f" and t[2] == "0":
+                x = t[1]
+                # (result as Continue).0 / (result as Ok).0 wrappers
+                for _ in range(6):
+                    if x[0] == "f" and x[2] == "0":
+                        x = x[1]
+                    elif x[0] == "dc":
+                        x = x[1]
+                    elif x[0] == "call" and ((x[1] or "").endswith("Try>::branch") or (x[1] or "").split("::")[-1] in ("ok", "map_err")) and x[2]:
+                        x = x[2][0]
+                    else:
+                        break
+                if x[0] == "call" and (x[1] or "").endswith("::from_ber") and x[2]:
+                    return pure_remainder(x[2][0], depth + 1)
+                if x[0] == "phi" or x[0] == "agg":
+                    return pure_remainder(x, depth + 1)
+            return False
+
         def is_rest_of_seq(t):
-            # (the input it was cut from may have gone through a helper's Result, where the argument is no longer visible in the term)
-            return t[0] == "f" and t[2] == "0" and flow.mentions(t, lambda s: s[0] == "call" and (s[1] or "").endswith("BerDecoder::from_ber"))
+            seen_loops.clear()
+            return t[0] == "f" and t[2] == "0" and flow.mentions(t, lambda s: s[0] == "call" and (s[1] or "").endswith("BerDecoder::from_ber")) and \
+                pure_remainder(t)
         ge = [g for g in gs if g.term[0] == "call" and (g.term[1] or "").endswith("[T]>::is_empty") and g.term[2] and is_rest_of_seq(g.term[2][0])]
         key = "%s|no-trailing-data" % name.split(" as ")[0].lstrip("<")
         if not ge or not oks:
